@@ -12,7 +12,7 @@ ADD = {
  "C09": "File-info limits over synthesised multi-Stream files with up to 20 000 Records per Stream; threaded decoder on big equal-sized Blocks with different declared dictionaries (threaded Block followed by a direct-mode Block).",
  "C10": "Re-initialisation sweep: coder A used (completed or abandoned part-way) on the handle, handle re-initialised for coder B (the same kind more often than not), the k-th allocation counted from B's init fails; lzma_filters_update() after a reported failure.",
  "C11": "The handle may have served another coder before (no lzma_end in between): nothing of that coder, in particular not its set of supported actions, may survive.",
- "C12": "Chains that must be refused (lc+lp>4, dict 100, unaligned BCJ start offset that passes the memory-usage validation and fails in the filter's init, delta dist 257, nice_len 1, unknown filter, LZMA2 twice) offered as the first call, between Blocks, right after an accepted change and mid-Block.",
+ "C12": "Tool level: xz --flush-timeout under the system-call shim with a slow producer on standard input (read() returns EAGAIN at seeded calls, the following poll() times out and moves the simulated clock): when xz comes back for more input after a flush timeout, everything it has read so far must decode from what it has written so far (crash after acknowledgement), the whole output decodes to the whole input, and chains that cannot be sync-flushed (BCJ, LZMA1) are refused up front. Chains that must be refused (lc+lp>4, dict 100, unaligned BCJ start offset that passes the memory-usage validation and fails in the filter's init, delta dist 257, nice_len 1, unknown filter, LZMA2 twice) offered as the first call, between Blocks, right after an accepted change and mid-Block.",
  "C13": "Histories continue on decoded Indexes (encode -> decode -> append ...); file-info over files with Stream Padding around and beyond the decoder's 8 KiB window.",
  "C16": "Notice flags (TELL_ANY_CHECK, TELL_NO_CHECK, TELL_UNSUPPORTED_CHECK; IGNORE_CHECK on undamaged artefacts) varied; one illegal distance site per .lzma file / .lz member.",
  "C18": "Inputs with every dictionary-size form (2^n, 2^n+2^(n-1), arbitrary) for .lzma and .xz and lc/lp/pb variants; compressed sizes at and next to multiples of the tools' 8 KiB buffers; the round trip is xz -k followed by the tool's own xz -dc of the file it wrote. On rejected input the reference is either library decode (one-shot or with the tools' 8 KiB buffers), see known finding KF-C06-2.",
